@@ -41,15 +41,23 @@ def generate(rng, n, tier):
                            [2 ** 24 + 1, 2 ** 24 + 3, 2 ** 25 + 1, 1], [2.0 ** -20, 1 + 2.0 ** -20, 2, 1],
                            [-2, -1, 0, 1, 3], [-0.5, -4, 2, 0.25], [-1, -3],                      # rewards minus penalties: negative entries
                            [0, 2.0 ** -40, 2.0 ** -39], [2.0 ** -40, 3 * 2.0 ** -40, 2.0 ** -38, 0]])     # tiny scale (exact in binary): the optimum does not depend on the unit
-        out.append({'C': sym_matrix(rows, vals, rng), 'mode': rng.choice([0, 1])})
+        out.append({'C': sym_matrix(rows, vals, rng), 'mode': rng.choice([0, 1]), 'twice': rng.random() < 0.3, 'dtype': rng.choice(['float', 'float', 'int', 'bool'])})
     return out
 
 
 def run_impl(case):
     import sys, numpy as np, tracklib.algo.segmentation
     sg = sys.modules['tracklib.algo.segmentation']
-    out = sg.optimalPartition(np.array(case['C'], dtype=float), case['mode'], False)
-    return {'out': [int(v) for v in out]}
+    C = case['C']
+    dt = case.get('dtype', 'float')
+    ints = all(float(v) == int(v) for r in C for v in r)
+    if dt == 'bool' and not all(v in (0, 1) for r in C for v in r) or dt == 'int' and not ints:
+        dt = 'float'
+    M = np.array(C, dtype={'float': float, 'int': np.int64, 'bool': bool}[dt])          # the same matrix in another numeric representation
+    if case.get('twice'):                         # the caller's matrix object is used for both directions: the first call must leave it as it was
+        sg.optimalPartition(M, 1 - case['mode'], False)
+    out = sg.optimalPartition(M, case['mode'], False)
+    return {'out': [int(v) for v in out], 'kept': bool((np.array(M, dtype=float) == np.array(C, dtype=float)).all())}
 
 
 def coq_case(case, obs):
